@@ -1416,5 +1416,6 @@ pub fn run(args: Args) {
     for (ok, why) in checks {
         run.require(ok, &why);
     }
+    crate::model::check_witness_retention(&mut run);
     run.finish();
 }
